@@ -252,7 +252,7 @@ def case_mapfn(ctx, c):
         rr = g.choice([0.0, 5e-324, 1e-300, 1e-17, 0.25, 0.4, 0.49999999, float(numpy.nextafter(0.5, 0))], n)
         rcls = "fraction boundary table"
     rr = numpy.clip(rr, 0.0, float(numpy.nextafter(0.5, 0)))
-    with direct(rcls, coords):
+    with direct("inverse images of fractions", coords):
         ok, dd = guarded(ctx, cname + ".invmapfn", rcls, coords, lambda: fn.invmapfn(rr.copy()), {"fn": cname, "r": rr})
         if ok:
             dd = numpy.asarray(dd, dtype=float)
@@ -327,7 +327,7 @@ def gen_map(g):
 def gen_query(g, spec, nq=None):
     tab = spec["tab"]
     labs = sorted(tab)
-    nq = int(g.integers(2, 31)) if nq is None else nq
+    nq = (1 if g.random() < 0.03 else int(g.integers(2, 31))) if nq is None else nq
     with_absent = g.random() < 0.3
     with_dups = g.random() < 0.2
     absent_pool = [x for x in list(range(-1, 45)) + [10 ** 9 + 7, 2 * 10 ** 9] if x not in tab]
@@ -387,15 +387,20 @@ def rand_slice(g, n):
 
 
 def make_gmat(g, kind, qc, qp):
+    """Genotype matrix over the query variants (unsorted); half of them carry stale positions/probabilities of some
+    other map, which interp_xoprob must overwrite."""
     from pybrops.popgen.gmat.DensePhasedGenotypeMatrix import DensePhasedGenotypeMatrix
     from pybrops.popgen.gmat.DenseGenotypeMatrix import DenseGenotypeMatrix
     nt = 3
+    kw = {}
+    if g.random() < 0.5:
+        kw = {"vrnt_genpos": g.uniform(0, 3, len(qc)), "vrnt_xoprob": g.uniform(0, 0.5, len(qc))}
     if kind == "DensePhasedGenotypeMatrix":
         m = DensePhasedGenotypeMatrix(g.integers(0, 2, (2, nt, len(qc))).astype("int8"), vrnt_chrgrp=qc.astype("int64"),
-                                      vrnt_phypos=qp.copy())
+                                      vrnt_phypos=qp.copy(), **kw)
     else:
         m = DenseGenotypeMatrix(g.integers(0, 3, (nt, len(qc))).astype("int8"), vrnt_chrgrp=qc.astype("int64"),
-                                vrnt_phypos=qp.copy())
+                                vrnt_phypos=qp.copy(), **kw)
     m.group_vrnt()
     return m
 
@@ -414,7 +419,8 @@ def case_map(ctx, c):
         perm2 = numpy.arange(n)[::-1].copy()                 # exactly reversed
     qc, qp, with_absent = gen_query(g, spec)
     gcls, units = spec["gcls"], spec["units"]
-    icls = "%s map/%s" % (gcls, units)
+    ucls = "%s map/%s units" % (gcls, units)          # clauses that depend on the stored positions
+    icls = "%s map" % gcls                             # everything else
     congruent = gcls != "non-congruent"
     coords = [c, "map"]
     tab = spec["tab"]
@@ -429,7 +435,7 @@ def case_map(ctx, c):
     gscale = O.scale_of(spec["ge"])
     fns = mapfns()
 
-    with internal(icls, coords):
+    with internal("distances of a genetic map", coords):
         ok, gm = guarded(ctx, clsname + ".__init__" if how != "pandas" else clsname + ".from_pandas", icls, coords,
                          lambda: build(spec, clsname, perm, how), W)
         if not ok:
@@ -441,7 +447,7 @@ def case_map(ctx, c):
             st_ok = (numpy.array_equal(gm.vrnt_chrgrp, spec["ch"]) and numpy.array_equal(gm.vrnt_phypos, spec["ph"])
                      and O.agree(gm.vrnt_genpos, spec["ge"], gscale)[0])
             ctx.check("C11.state.sorted", st_ok, S("group"), "stored rows == rows sorted by (chromosome, physical position), Morgans",
-                      icls, witness=dict(W, stored_chr=gm.vrnt_chrgrp, stored_phys=gm.vrnt_phypos, stored_gen=gm.vrnt_genpos),
+                      ucls, witness=dict(W, stored_chr=gm.vrnt_chrgrp, stored_phys=gm.vrnt_phypos, stored_gen=gm.vrnt_genpos),
                       coords=coords)
             labs = numpy.array(sorted(tab), dtype="int64")
             lens = numpy.array([len(tab[int(x)][0]) for x in labs], dtype="int64")
@@ -451,7 +457,7 @@ def case_map(ctx, c):
                          and numpy.array_equal(gm.vrnt_chrgrp_stix, stix) and numpy.array_equal(gm.vrnt_chrgrp_spix, stix + lens))
             except Exception:
                 gr_ok = False
-            ctx.check("C11.state.sorted", gr_ok, S("group"), "chromosome runs (name/start/stop/length) describe the sorted rows", icls,
+            ctx.check("C11.state.sorted", gr_ok, S("group"), "chromosome runs (name/start/stop/length) describe the sorted rows", ucls,
                       witness=dict(W, name=gm.vrnt_chrgrp_name, stix=gm.vrnt_chrgrp_stix, spix=gm.vrnt_chrgrp_spix,
                                    len=gm.vrnt_chrgrp_len), coords=coords)
 
@@ -462,7 +468,7 @@ def case_map(ctx, c):
             okk, err = O.agree(out, og, gscale)
             if okk:
                 ctx.maxnote("interp own-marker |got-stored|", err)
-            ctx.check("C11.interp.own", okk, S("interp_genpos"), "interpolation at own markers == stored positions", icls,
+            ctx.check("C11.interp.own", okk, S("interp_genpos"), "interpolation at own markers == stored positions", ucls,
                       witness=dict(W, got=out, expected=og), coords=coords)
 
         # ---- query set: absent / inside / own / outside
@@ -488,7 +494,7 @@ def case_map(ctx, c):
             okk, err = O.agree(qg[known], exp[known], gscale)
             if okk:
                 ctx.maxnote("interp linear |got-expected|", err)
-            ctx.check("C11.interp.linear", okk, S("interp_genpos"), "linear between the flanking markers", icls,
+            ctx.check("C11.interp.linear", okk, S("interp_genpos"), "linear between the flanking markers", ucls,
                       witness=dict(WQ, got=qg, expected=exp, kind=kind.tolist()), coords=coords)
         if congruent:
             # order preserving (inside and beyond the terminal markers): slack on the safe side only
@@ -516,14 +522,30 @@ def case_map(ctx, c):
         else:
             ok, im = guarded(ctx, S("interp_gmap"), icls, coords, lambda: gm.interp_gmap(qc, qp), WQ)
         if ok:
-            try:
-                gm_ok = (type(im) is type(gm) and numpy.array_equal(im.vrnt_chrgrp, qc) and numpy.array_equal(im.vrnt_phypos, qp)
-                         and O.agree(im.vrnt_genpos, qg, O.scale_of(qg))[0])
+            try:  # rows compared as a multiset: the property does not fix the row order of the product
+                oa = numpy.lexsort((numpy.asarray(im.vrnt_genpos, dtype=float), im.vrnt_phypos, im.vrnt_chrgrp))
+                ob = numpy.lexsort((qg, qp, qc))
+                gm_ok = (type(im) is type(gm) and numpy.array_equal(numpy.asarray(im.vrnt_chrgrp)[oa], qc[ob])
+                         and numpy.array_equal(numpy.asarray(im.vrnt_phypos)[oa], qp[ob])
+                         and O.agree(numpy.asarray(im.vrnt_genpos, dtype=float)[oa], qg[ob], O.scale_of(qg))[0])
             except Exception:
                 gm_ok = False
             ctx.check("C11.interp.gmap", gm_ok, S("interp_gmap"), "interpolated map carries the query rows with interp_genpos positions",
                       icls, witness=dict(WQ, got_chr=getattr(im, "vrnt_chrgrp", None), got_phys=getattr(im, "vrnt_phypos", None),
                                          got_gen=getattr(im, "vrnt_genpos", None), expected_gen=qg), coords=coords)
+
+            # the product is itself a genetic map: when its rows qualify as one (>= 2 rows per chromosome, distinct physical
+            # positions, nothing missing) it must interpolate its own rows to its stored positions
+            rows = list(zip(qc.tolist(), qp.tolist()))
+            per = {x: qc.tolist().count(x) for x in set(qc.tolist())}
+            if gm_ok and not ab.any() and len(set(rows)) == len(rows) and min(per.values()) >= 2:
+                pcls = "map produced by interp_gmap"
+                ok, back = guarded(ctx, S("interp_gmap"), pcls, coords, lambda: im.interp_genpos(qc, qp), WQ)
+                if ok:
+                    ctx.check("C11.interp.own", O.agree(back, qg, O.scale_of(qg))[0], S("interp_gmap"),
+                              "product map interpolates its own rows to its stored positions", pcls,
+                              witness=dict(WQ, stored=qg, got=back), coords=coords)
+                    ctx.sumnote("interp_gmap products re-interpolated")
 
         # ---- distances.  Sequential functions need input sorted by (chromosome, genetic position)
         o = numpy.lexsort((qp, qg, qc)) if not congruent else numpy.lexsort((qg, qp, qc))
@@ -609,26 +631,27 @@ def case_map(ctx, c):
             fs = lambda m: site_of(fn, m)  # noqa: E731
             for meth, args, refd in (("rprob1g", (sc, sg), ref1), ("rprob2g", (qc, qg), ref2),
                                      ("rprob1p", (pc, pp), refp1), ("rprob2p", (qc, qp), ref2)):
-                ok, rp = guarded(ctx, fs(meth), icls, coords, lambda: getattr(fn, meth)(gm, *args), WD)
+                ok, rp = guarded(ctx, fs(meth), clsname, coords, lambda: getattr(fn, meth)(gm, *args), WD)
                 if not ok:
                     continue
                 valid = ~(refd < 0.0)                      # negative differences (non-congruent, sorted by phys) are out of the property
                 refr = O.ref_mapfn(kname, numpy.where(valid, refd, numpy.nan))
                 rp = numpy.asarray(rp, dtype=float)
                 okk = rp.shape == refr.shape and O.agree(numpy.where(valid, rp, numpy.nan), refr, 0.5)[0]
-                ctx.check("C11.rprob", okk, fs(meth), "== map function of the map's distances", icls,
+                ctx.check("C11.rprob", okk, fs(meth), "== map function of the map's distances", clsname,
                           witness=dict(WD, fn=kname, got=rp, expected=refr), coords=coords)
 
         # ---- crossover probabilities on a genotype matrix
         gkind = ["DensePhasedGenotypeMatrix", "DenseGenotypeMatrix"][(c // 2) % 2]
         kname = ["haldane", "kosambi"][(c // 4) % 2]
-        xo = run_xoprob(ctx, g, gm, gkind, kname, fns[kname], qc, qp, tab, congruent, icls, coords, WQ, gscale)
+        xo = run_xoprob(ctx, g, gm, gkind, kname, fns[kname], qc, qp, tab, congruent, (ucls, icls), coords, WQ, gscale)
 
         # ---- same map supplied in another row order (and possibly through another construction path)
         ok, gm2 = guarded(ctx, clsname + ".__init__" if how2 != "pandas" else clsname + ".from_pandas", icls, coords,
                           lambda: build(spec, clsname, perm2, how2), dict(W, perm2=perm2, built2=how2))
         if ok:
-            ricls = "%s/%s vs %s" % (icls, how, how2)
+            paths = sorted("auto_group=False" if h == "nogroup" else "auto-grouped" for h in (how, how2))
+            ricls = "%s map/%s vs %s" % ("congruent" if congruent else "non-congruent", paths[0], paths[1])
             W2 = dict(WQ, second_order_chr=spec["ch"][perm2], second_order_phys=spec["ph"][perm2], built2=how2)
             # touch both maps first (auto_group=False maps sort themselves lazily)
             pairs = [("interp_genpos", lambda m: m.interp_genpos(qc, qp)),
@@ -653,18 +676,33 @@ def case_map(ctx, c):
                       witness=dict(W2, first=[gm.vrnt_chrgrp, gm.vrnt_phypos, gm.vrnt_genpos],
                                    second=[gm2.vrnt_chrgrp, gm2.vrnt_phypos, gm2.vrnt_genpos]), coords=coords)
             if xo is not None:
-                xo2 = run_xoprob(ctx, g, gm2, gkind, kname, fns[kname], qc, qp, tab, congruent, icls, coords, W2, gscale, judge=False)
+                xo2 = run_xoprob(ctx, g, gm2, gkind, kname, fns[kname], qc, qp, tab, congruent, (ucls, icls), coords, W2, gscale, judge=False)
                 if xo2 is not None:
                     ctx.check("C11.roworder", O.agree(xo, xo2, 0.5)[0], "DenseGeneticMappableMatrix.interp_xoprob",
                               "result independent of the row order supplied", ricls, witness=dict(W2, first=xo, second=xo2), coords=coords)
 
 
-def run_xoprob(ctx, g, gm, gkind, kname, fn, qc, qp, tab, congruent, icls, coords, WQ, gscale, judge=True):
+def run_xoprob(ctx, g, gm, gkind, kname, fn, qc, qp, tab, congruent, classes, coords, WQ, gscale, judge=True):
     """interp_xoprob on a grouped genotype matrix; returns vrnt_xoprob (or None when the call failed)."""
     xsite = "DenseGeneticMappableMatrix.interp_xoprob"
+    ucls = "%s/%s" % (type(gm).__name__, classes[0])
+    icls = "%s/%s map" % (type(gm).__name__, "congruent" if congruent else "non-congruent")
     ok, gmat = guarded(ctx, gkind + ".group_vrnt", icls, coords, lambda: make_gmat(ctx.rng("gmat", coords[0]), gkind, qc, qp), WQ)
     if not ok:
         return None
+    if judge:  # the positions-only entry point of the same class, on an independent matrix
+        ok, gmat0 = guarded(ctx, gkind + ".group_vrnt", icls, coords, lambda: make_gmat(ctx.rng("gmat", coords[0]), gkind, qc, qp), WQ)
+        psite = "DenseGeneticMappableMatrix.interp_genpos"
+        ok, _ = guarded(ctx, psite, icls, coords, lambda: gmat0.interp_genpos(gm), dict(WQ, gmat=gkind)) if ok else (False, None)
+        if ok:
+            e0, k0 = O.ref_interp(tab, gmat0.vrnt_chrgrp, gmat0.vrnt_phypos)
+            k0 = numpy.array(k0); kn0 = (k0 == "own") | ((k0 == "inside") & congruent) | (k0 == "absent")
+            v0 = gmat0.vrnt_genpos
+            ok0 = (v0 is not None and numpy.asarray(v0).shape == e0.shape and O.agree(numpy.asarray(v0, dtype=float)[kn0], e0[kn0], gscale)[0]
+                   and bool(numpy.all(numpy.isfinite(numpy.asarray(v0, dtype=float)[k0 == "outside"]))))
+            ctx.check("C11.xoprob.genpos", ok0, psite, "vrnt_genpos == interpolated positions of the variants", ucls,
+                      witness=dict(WQ, gmat=gkind, vrnt_chr=gmat0.vrnt_chrgrp, vrnt_phys=gmat0.vrnt_phypos, vrnt_genpos=v0, expected=e0,
+                                   kind=k0.tolist()), coords=coords)
     ok, _ = guarded(ctx, xsite, icls, coords, lambda: gmat.interp_xoprob(gm, fn), dict(WQ, gmat=gkind, fn=kname))
     if not ok:
         return None
@@ -675,14 +713,14 @@ def run_xoprob(ctx, g, gm, gkind, kname, fn, qc, qp, tab, congruent, icls, coord
     WX = dict(WQ, gmat=gkind, fn=kname, vrnt_chr=vc, vrnt_phys=vp, vrnt_genpos=vg, vrnt_xoprob=xo)
     nv = len(vc)
     if vg is None or xo is None or numpy.asarray(vg).shape != (nv,) or numpy.asarray(xo).shape != (nv,):
-        ctx.check("C11.xoprob.genpos", False, xsite, "vrnt_genpos and vrnt_xoprob are set, one per variant", icls, witness=WX, coords=coords)
+        ctx.check("C11.xoprob.genpos", False, xsite, "vrnt_genpos and vrnt_xoprob are set, one per variant", ucls, witness=WX, coords=coords)
         return None
     vg = numpy.asarray(vg, dtype=float); xo = numpy.asarray(xo, dtype=float)
     exp, kind = O.ref_interp(tab, vc, vp)
     kind = numpy.array(kind)
     known = (kind == "own") | ((kind == "inside") & congruent) | (kind == "absent")
     okk = O.agree(vg[known], exp[known], gscale)[0] and bool(numpy.all(numpy.isfinite(vg[kind == "outside"])))
-    ctx.check("C11.xoprob.genpos", okk, xsite, "vrnt_genpos == interpolated positions of the variants", icls,
+    ctx.check("C11.xoprob.genpos", okk, xsite, "vrnt_genpos == interpolated positions of the variants", ucls,
               witness=dict(WX, expected=exp, kind=kind.tolist()), coords=coords)
     start = numpy.r_[True, vc[1:] != vc[:-1]]
     ctx.check("C11.xoprob.start", bool(numpy.all(xo[start] == 0.5)), xsite, "exactly 0.5 at each chromosome start", icls,
@@ -707,7 +745,7 @@ def run_xoprob(ctx, g, gm, gkind, kname, fn, qc, qp, tab, congruent, icls, coord
 
 
 # =================================================================== driver
-FAMILIES = {"mapfn": (case_mapfn, 3000, 160000), "map": (case_map, 2000, 60000)}
+FAMILIES = {"mapfn": (case_mapfn, 20000, 1000000), "map": (case_map, 6000, 300000)}
 
 
 def run_shard(ctx):
